@@ -610,6 +610,12 @@ func (fr *Frame) applyContract(in ssa.Instruction, callee *ssa.Function, cc *ssa
 		}
 		fr.assume(cond)
 	}
+	for _, en := range c.TrustedEnsures {
+		if cond, ok := env.tryEvalBool(en.E); ok {
+			fr.assume(cond)
+			vc.Trusted[fmt.Sprintf("assumed postcondition of %s: %s", c.Func, en.Src)] = true
+		}
+	}
 	return res
 }
 
@@ -770,8 +776,9 @@ func (fr *Frame) atCallAsserts(in ssa.Instruction, cc *ssa.CallCommon, args []*V
 	}
 	vc := fr.vc
 	name := calleeName(cc, callee)
+	occ := fr.occurrence(in, name)
 	for k, ac := range fr.c.AtCalls {
-		if ac.After || ac.Kind == "let" || !calleeMatches(name, ac.Callee) {
+		if ac.After || ac.Kind == "let" || !calleeMatchesOcc(name, ac.Callee, occ) {
 			continue
 		}
 		env := fr.specEnvHere()
@@ -792,6 +799,44 @@ func (fr *Frame) atCallAsserts(in ssa.Instruction, cc *ssa.CallCommon, args []*V
 			File: pos.Filename, Line: pos.Line, Goals: []Goal{{fr.here(), cond}}, Mark: vc.S.Mark()})
 		fr.assume(cond)
 	}
+}
+
+// occurrence: ordinal of this call among the calls to the same callee in the function (source order).
+func (fr *Frame) occurrence(in ssa.Instruction, name string) int {
+	n := 0
+	type posd struct{ pos int }
+	my := int(in.Pos())
+	for _, b := range fr.fn.Blocks {
+		for _, other := range b.Instrs {
+			ci, ok := other.(ssa.CallInstruction)
+			if !ok || other == in {
+				continue
+			}
+			cc := ci.Common()
+			var callee *ssa.Function
+			switch v := cc.Value.(type) {
+			case *ssa.Function:
+				callee = v
+			case *ssa.MakeClosure:
+				callee = v.Fn.(*ssa.Function)
+			}
+			if calleeName(cc, callee) == name && int(other.Pos()) < my {
+				n++
+			}
+		}
+	}
+	return n
+}
+
+// calleeMatchesOcc: pattern "Callee#n" restricts the match to the n-th call (source order) of that callee.
+func calleeMatchesOcc(name, pat string, occ int) bool {
+	if i := strings.LastIndex(pat, "#"); i > 0 {
+		var want int
+		if _, err := fmt.Sscanf(pat[i+1:], "%d", &want); err == nil {
+			return want == occ && calleeMatches(name, pat[:i])
+		}
+	}
+	return calleeMatches(name, pat)
 }
 
 func calleeMatches(name, pat string) bool {
@@ -826,8 +871,9 @@ func (fr *Frame) resultsAllocated(r *Val) {
 func (fr *Frame) afterCall(in ssa.Instruction, cc *ssa.CallCommon, args []*Val, callee *ssa.Function, ret *Val) {
 	vc := fr.vc
 	name := calleeName(cc, callee)
+	occ := fr.occurrence(in, name)
 	for k, ac := range fr.c.AtCalls {
-		if !ac.After || !calleeMatches(name, ac.Callee) {
+		if !ac.After || !calleeMatchesOcc(name, ac.Callee, occ) {
 			continue
 		}
 		env := fr.specEnvHere()
@@ -849,6 +895,10 @@ func (fr *Frame) afterCall(in ssa.Instruction, cc *ssa.CallCommon, args []*Val, 
 				fr.ghosts = map[string]*Val{}
 			}
 			fr.ghosts[ac.Let] = sn
+			if vc.letTypes == nil {
+				vc.letTypes = map[string]*Val{}
+			}
+			vc.letTypes[ac.Let] = sn
 			continue
 		}
 		cond := env.evalBool(ac.Cl.E)
